@@ -166,7 +166,9 @@ class Rule(Expression):
 
             if self.modifier & SILENT:
                 gen.writeln(f"# Silent rule {self.name!r}")
-                gen.writeln(f"{pairs_var}.extend({children})")
+                gen.writeln(f"if {matched_var}:")
+                with gen.block():
+                    gen.writeln(f"{pairs_var}.extend({children})")
                 gen.writeln(f"return {matched_var}")
             else:
                 tag_var = gen.new_temp("tag")
